@@ -69,11 +69,29 @@ func (R *Run) checkCursor(rule string, only func(name string) bool) int {
 		cp := copies[0]
 		var cursorField string
 		var buf ssa.Value
-		if sl, ok := cp.Call.Args[1].(*ssa.Slice); ok && sl.High == nil && sl.Max == nil && sl.Low != nil {
+		// the source of the copy: buf[cursor:], or a value chosen between nil (nothing left) and buf[cursor:]
+		cpSrc := cp.Call.Args[1]
+		if phi, isPhi := cpSrc.(*ssa.Phi); isPhi {
+			var only ssa.Value
+			for _, e := range phi.Edges {
+				if isNilConst(e) {
+					continue
+				}
+				if only != nil && only != e {
+					only = nil
+					break
+				}
+				only = e
+			}
+			if only != nil {
+				cpSrc = only
+			}
+		}
+		if sl, ok := cpSrc.(*ssa.Slice); ok && sl.High == nil && sl.Max == nil && sl.Low != nil {
 			buf = sl.X
 			if f, ok := loadedField(stripConv(sl.Low)); ok {
 				if u, ok := stripConv(sl.Low).(*ssa.UnOp); ok {
-					if fa, ok := u.X.(*ssa.FieldAddr); ok && fa.X == ssa.Value(recv) {
+					if fa, ok := u.X.(*ssa.FieldAddr); ok && faBase(fa) == ssa.Value(recv) {
 						cursorField = f
 					}
 				}
@@ -81,10 +99,10 @@ func (R *Run) checkCursor(rule string, only func(name string) bool) int {
 		}
 		if cursorField == "" {
 			problems = append(problems, "the copy does not start at the receiver's cursor (copy(p, buf) restarts at byte 0 on every call: output repeats and never ends for buffers shorter than the record)")
-			if sl, ok := cp.Call.Args[1].(*ssa.Slice); ok {
+			if sl, ok := cpSrc.(*ssa.Slice); ok {
 				buf = sl.X
 			} else {
-				buf = cp.Call.Args[1]
+				buf = cpSrc
 			}
 		}
 
@@ -96,7 +114,7 @@ func (R *Run) checkCursor(rule string, only func(name string) bool) int {
 		var stores []fstore
 		eachInstr(fn, func(ins ssa.Instruction) {
 			if st, ok := ins.(*ssa.Store); ok {
-				if fa, ok := st.Addr.(*ssa.FieldAddr); ok && fa.X == ssa.Value(recv) {
+				if fa, ok := st.Addr.(*ssa.FieldAddr); ok && faBase(fa) == ssa.Value(recv) {
 					f, _ := fieldOf(fa)
 					stores = append(stores, fstore{f, st})
 				}
@@ -147,7 +165,7 @@ func (R *Run) checkCursor(rule string, only func(name string) bool) int {
 						addr = x.X
 					case *ssa.IndexAddr:
 						if ld, ok := x.X.(*ssa.UnOp); ok && ld.Op == token.MUL {
-							if fa, ok := ld.X.(*ssa.FieldAddr); ok && fa.X == ssa.Value(recv) {
+							if fa, ok := ld.X.(*ssa.FieldAddr); ok && faBase(fa) == ssa.Value(recv) {
 								if _, isSlice := ld.Type().Underlying().(*types.Slice); isSlice {
 									return true
 								}
@@ -219,6 +237,15 @@ func (R *Run) checkCursor(rule string, only func(name string) bool) int {
 				}
 				// on the exhausted edge: copy unreachable, and every return reachable from e.To is (0, io.EOF)
 				reach := reachableFrom(e.To, nil)
+				if reach[cp.Block()] {
+					// what the exhausted edge selects (an empty remainder) may be tested once more before the copy: the
+					// paths are followed with what the edge establishes
+					reach = map[*ssa.BasicBlock]bool{}
+					explore([]psItem{{e.To, enterBlock(e.From, e.To, nilState{})}}, nil, false, func(b *ssa.BasicBlock, _ nilState) bool {
+						reach[b] = true
+						return true
+					})
+				}
 				if reach[cp.Block()] {
 					return
 				}
@@ -292,7 +319,7 @@ func (R *Run) checkCursor(rule string, only func(name string) bool) int {
 				return callArgsFlat(&c.Call), true
 			}, Visit: func(x ssa.Value) bool {
 				if fa, ok := x.(*ssa.FieldAddr); ok {
-					if f, _ := fieldOf(fa); f == cursorField && fa.X == ssa.Value(recv) {
+					if f, _ := fieldOf(fa); f == cursorField && faBase(fa) == ssa.Value(recv) {
 						dep = true
 					}
 				}
@@ -310,7 +337,7 @@ func (R *Run) checkCursor(rule string, only func(name string) bool) int {
 					return
 				}
 				fa, ok := u.X.(*ssa.FieldAddr)
-				if !ok || fa.X != ssa.Value(recv) {
+				if !ok || faBase(fa) != ssa.Value(recv) {
 					return
 				}
 				if f, _ := fieldOf(fa); f != cursorField {
@@ -427,5 +454,5 @@ func sameLoc(a, b ssa.Value) bool {
 	}
 	fa, ok1 := ua.X.(*ssa.FieldAddr)
 	fb, ok2 := ub.X.(*ssa.FieldAddr)
-	return ok1 && ok2 && fa.X == fb.X && fa.Field == fb.Field
+	return ok1 && ok2 && faBase(fa) == faBase(fb) && fa.Field == fb.Field && func() bool { a, _ := fieldOf(fa); b, _ := fieldOf(fb); return a == b }()
 }
